@@ -20,7 +20,7 @@ from .. import runobs as R
 from . import c02
 
 PROP = "C07"
-CLAUSES = {"EnvShell", "EnvArgv", "EnvCwd", "EnvName", "EnvOut", "EnvDeps", "LibAgrees"}
+CLAUSES = {"EnvShell", "EnvArgv", "EnvCwd", "EnvName", "EnvOut", "EnvDeps", "LibAgrees", "RowIsTheVersionRun"}
 
 # values of different types that compare equal (True == 1 == 1.0, False == 0 == 0.0 == -0.0) sit next to each other on purpose
 ARG_POOL = ["x", "7", "-3", "2.5", "a_b", "k-z", True, False, 0, 12, 1.5, "Z9", "1e3", 1.0, 0.0, -0.0, 1, True, 1.0]
@@ -58,6 +58,12 @@ def scen_a(rng, k):
         if t["kind"] in ("run_experiment", "run_command"):
             t["run"] = rng.choice(["true", "./go.sh", "python3 m.py run"])
     scn["cond_symlinks"] = k % 4 == 1 and rng.random() < 0.8     # placements with packages: their COND files are symlinks
+    if k % 3 == 0:
+        # leftovers of an earlier failed / aborted execution in the very second of this run: the version that is RECORDED must
+        # be the one whose directory the task was given
+        pkgs_ = RC.PLACEMENTS[k % len(RC.PLACEMENTS)][:n] if n <= 6 else [""] * n
+        scn["plant"] = [{"path": os.path.join("cond-out", pkgs_[t - 1], "t%d.task.%d" % (t, g["now"] + off), "leftover.txt")}
+                        for t in range(1, n + 1) if g["kind"][t - 1] == "exp" and rng.random() < 0.6 for off in range(rng.randrange(1, 3))]
     return scn
 
 
